@@ -35,6 +35,11 @@ pub struct NtCase {
     pub alpha: f64,
     pub beta: f64,
     pub sigma_mu: f64,
+    /// an earlier scaling point: cone objects are reused across iterations and solves
+    #[serde(default)]
+    pub s_prev: Vec<f64>,
+    #[serde(default)]
+    pub z_prev: Vec<f64>,
 }
 
 pub enum Obj {
@@ -115,6 +120,9 @@ impl Obj {
         let mut w = vec![0.0; ds.len()];
         each!(self, k => k.Δs_from_Δz_offset(&mut out, ds, &mut w, z));
         out
+    }
+    pub fn set_identity(&mut self) {
+        each!(self, k => k.set_identity_scaling())
     }
     pub fn hs_is_diagonal(&self) -> bool {
         each!(self, k => k.Hs_is_diagonal())
@@ -229,6 +237,8 @@ pub fn gen_nt(t: &mut Tape) -> NtCase {
         alpha: t.choose(&[1.0, -1.0, 0.0, 2.5, 0.5]),
         beta: t.choose(&[0.0, 1.0, -1.0, 0.5]),
         sigma_mu: t.log_uniform(1e-6, 10.0),
+        s_prev: sym_interior(t, &cone, 0.3, 1.0),
+        z_prev: sym_interior(t, &cone, 0.3, 1.0),
         cone,
     }
 }
@@ -401,6 +411,11 @@ pub fn check_nt(c: &NtCase, ctx: &mut Ctx) -> CheckResult {
         ctx.nontrivial();
     }
     let mut k = Obj::new(cone);
+    if c.s_prev.len() == n && c.z_prev.len() == n {
+        // the object has been used at another point before (state must not leak)
+        ensure!(k.update_scaling(&c.s_prev, &c.z_prev), "update_scaling failed at a well-centred earlier point");
+        ctx.label("object-reused");
+    }
     ensure!(k.update_scaling(s, z), "update_scaling returned false on interior points (relative margin {delta:e})");
     let (h_ref, lam_ref) = reference_h(cone, s, z);
     // conditioning of W from the reference operator
@@ -573,6 +588,50 @@ pub fn check_nt(c: &NtCase, ctx: &mut Ctx) -> CheckResult {
             let q = k.lam_inv_circ(y);
             let exp = k.w(true, &q);
             nclose(&off, &exp, (1e3 * EPS * lk * kw).max(tol).min(1e-2), "ds_from_dz_offset vs W'(lambda \\ ds)")?;
+        }
+    }
+    // 6. identity scaling on the same (used) object: W = I, and the KKT block is again the operator applied
+    {
+        k.set_identity();
+        let wx = k.w(false, x);
+        nclose(&wx, x, 8.0 * EPS, "identity scaling: W x vs x")?;
+        let hx = k.mul_hs(x);
+        nclose(&hx, x, 8.0 * EPS, "identity scaling: mul_Hs(x) vs x")?;
+        let mut hk = zeros(n, n);
+        match (&k, k.hs_is_diagonal()) {
+            (Obj::Nn(_), _) => {
+                let b = k.get_hs(n);
+                for i in 0..n {
+                    hk[i][i] = b[i];
+                }
+            }
+            (Obj::Soc(sc), true) => {
+                let b = k.get_hs(n);
+                let sd = sc.sparse_data.as_ref().ok_or("no sparse data")?;
+                let e2 = sc.η * sc.η;
+                for i in 0..n {
+                    for j in 0..n {
+                        hk[i][j] = e2 * (sd.u[i] * sd.u[j] - sd.v[i] * sd.v[j]) + if i == j { b[i] } else { 0.0 };
+                    }
+                }
+            }
+            _ => {
+                let b = k.get_hs(n * (n + 1) / 2);
+                let mut idx = 0;
+                for col in 0..n {
+                    for row in 0..=col {
+                        hk[row][col] = b[idx];
+                        hk[col][row] = b[idx];
+                        idx += 1;
+                    }
+                }
+            }
+        }
+        for i in 0..n {
+            for j in 0..n {
+                let e = if i == j { 1.0 } else { 0.0 };
+                ensure!((hk[i][j] - e).abs() <= 8.0 * EPS, "identity scaling after use: KKT block entry ({i},{j}) = {:e}, expected {e}", hk[i][j]);
+            }
         }
     }
     Ok(())
